@@ -345,6 +345,28 @@ def r_log_lockstep(ctx: RuleCtx, col: Collector):
         col.bad(where_of(f), f.rel, line_of(f.node), "header names and row values appended in lockstep",
                 f"on a path where the header is collected the row has {sorted(bad_exit)} more value(s) than the header has "
                 f"names: columns of the log file do not line up with its header")
+    # file modes: the header write truncates, the row write appends
+    for w in [n for n in ast.walk(f.node) if isinstance(n, ast.With)]:
+        for item in w.items:
+            c = item.context_expr
+            if isinstance(c, ast.Call) and isinstance(c.func, ast.Name) and c.func.id == "open" and len(c.args) >= 2 and \
+                    isinstance(c.args[1], ast.Constant):
+                mode = c.args[1].value
+                writes_header = any(isinstance(x, ast.Name) and x.id == tags for b in w.body for x in ast.walk(b))
+                writes_row = any(isinstance(x, ast.Name) and x.id == dat for b in w.body for x in ast.walk(b))
+                if writes_header:
+                    if mode.startswith("w"):
+                        col.ok(where_of(f), f.rel, line_of(w), "header written to a truncated file", f"mode '{mode}'")
+                    else:
+                        col.bad(where_of(f), f.rel, line_of(w), "header written to a truncated file",
+                                f"the header is written with mode '{mode}': a file left by an earlier run is not truncated, so "
+                                f"the log contains old rows and a second header")
+                if writes_row and not writes_header:
+                    if mode.startswith("a"):
+                        col.ok(where_of(f), f.rel, line_of(w), "rows appended", f"mode '{mode}'")
+                    else:
+                        col.bad(where_of(f), f.rel, line_of(w), "rows appended",
+                                f"rows are written with mode '{mode}': every call overwrites the earlier rows")
     # exactly one row write and one counter increment
     rowwrites = []
     incs = []
